@@ -267,6 +267,13 @@ def directed_scripts(variant):
         "logger 0 sinks=0,1 lvl=0", "logger 1 sinks=2 lvl=0", "logger 2 sinks=2 lvl=0", "start",
         "T 1 start", "T 2 start", "L 1 0 4 10", "L 2 1 4 10", "P", "P", "P", "DS 0", "DS 1", "DS 2", "RL 1 0",
         "P @9.1=L_2_2_4_20,RL_2_2 @9.2=L_1_1_6_10,RL_1_1,F_2_1", "R 2", "P", "R 2", "P", "R 2", "P", "P", "Q", "X"]))
+    # F25 (unbounded builds): a buffer created by a shrink request stays empty when the next statement does not fit in it; the
+    # read pass must follow the chain past it, or a younger statement of another thread is written first
+    if variant >= 2:
+        out.append(("dir_f25_empty_buffer_after_shrink", [
+            "cfg grace=1 soft=8 hard=8 tcap=8", "sink 0 lvl=0", "logger 0 sinks=0 lvl=0", "start", "T 1 start", "T 2 start",
+            "L 1 0 4 10", "L 2 0 4 10", "K 1000000", "P", "P", "P", "QC 1", "SH 1 256", "L 1 0 4 700", "K 1", "L 2 0 4 10",
+            "K 1000000", "P", "P", "P", "P", "Q", "X"]))
     # backtrace: wrap, flush by level, explicit flush
     out.append(("dir_backtrace", [
         "cfg grace=0 soft=4 hard=8 tcap=2", "sink 0 lvl=0", "logger 0 sinks=0 lvl=0", "start", "T 1 start",
@@ -390,6 +397,7 @@ def oracles(lines):
     written = {}        # (sink, id) -> count
     write_order = []    # (sink, id, lvl, ts)
     pending_by_actor = {}   # actor -> id of the log call it is parked in
+    removal_requested = set()   # logger names with a removal request since their last creation
     n_actors = len({w[1] for (w, _, _) in rec["ops"] if w[0] == "T"})
     idle = dict(streak=0, epoch=0)   # consecutive backend passes that wrote nothing and flushed (C09 end to end)
     park_mark = {}          # actor -> (epoch, streak) when its log call parked / last retried
@@ -468,18 +476,19 @@ def oracles(lines):
                 check_flush_done(a)
         elif op in ("RL", "RB"):
             removed_loggers = True
+            if res != "noop":
+                removal_requested.add(int(w[2]))
             if op == "RB" and res != "noop":
                 live_logged.add(int(w[1]))
         elif op == "CL":
             g = int(w[2])
             if "valid=1" in res:
-                # an existing logger keeps its sinks; a new one gets the listed ones — nsinks tells which
-                mm = re.search(r"nsinks=(\d+)", res)
+                # a name whose removal was requested can only be answered with a NEW object (the guards make a re-creation
+                # wait until the old object is erased): it gets the listed sinks; a name that is still there keeps its own
                 listed = [int(t) for t in w[3].split(",") if t]
-                if mm and int(mm.group(1)) == len(listed):
-                    loggers_sinks.setdefault(g, listed)
-                    if g not in rec["loggers"]:
-                        loggers_sinks[g] = listed
+                if g in removal_requested or g not in loggers_sinks:
+                    loggers_sinks[g] = listed
+                    removal_requested.discard(g)
             removed_loggers = True
         elif op in ("SL", "SS", "DS"):
             dyn_cfg_changes = True
